@@ -327,32 +327,9 @@ impl PartialEq for OctetString {
         if let (Some(l), Some(r)) = (self.as_slice(), other.as_slice()) {
             return l == r
         }
-        let mut sit = self.iter();
-        let mut oit = other.iter();
-        let (mut ssl, mut osl) = match (sit.next(), oit.next()) {
-            (Some(ssl), Some(osl)) => (ssl, osl),
-            (None, None) => return true,
-            _ => return false,
-        };
-        loop {
-            if ssl.is_empty() {
-                ssl = sit.next().unwrap_or(b"");
-            }
-            if osl.is_empty() {
-                osl = oit.next().unwrap_or(b"");
-            }
-            match (ssl.is_empty(), osl.is_empty()) {
-                (true, true) => return true,
-                (false, false) => { },
-                _ => return false,
-            }
-            let len = cmp::min(ssl.len(), osl.len());
-            if ssl[..len] != osl[..len] {
-                return false
-            }
-            ssl = &ssl[len..];
-            osl = &osl[len..];
-        }
+        // The content is the concatenation of the segments, however it is
+        // split up, so compare octet by octet.
+        self.octets().eq(other.octets())
     }
 }
 
